@@ -540,6 +540,80 @@ var c15Scenarios = []c15Scenario{
 			}
 		},
 	},
+	{
+		// one goroutine copies the row groups of an open File into a new file
+		// (the copy path that moves column chunks without decoding them) while
+		// another goroutine seeks and reads in the same File; afterwards the
+		// File is read again: it must still hold what was written.
+		name:  "S10-sharedFileCopyAndSeek",
+		cases: func(string) int { return 2 },
+		body: func(i int, _ string) (string, func() string) {
+			// (two rows in a page of the column read below: seeks use the offset index)
+			opts := []parquet.WriterOption{parquet.PageBufferSize(16), parquet.MaxRowsPerRowGroup(6)}
+			src := c15Rows(0, 12)
+			data := c15File(src, opts...)
+			seekRead := func(f *parquet.File, g int, row int64) string {
+				pages := f.RowGroups()[g].ColumnChunks()[0].Pages()
+				defer pages.Close()
+				if err := pages.SeekToRow(row); err != nil {
+					return fmt.Sprintf("rg%d@%d:seek:%v MISMATCH", g, row, err)
+				}
+				p, err := pages.ReadPage()
+				if err != nil || p == nil {
+					return fmt.Sprintf("rg%d@%d:read:%v MISMATCH", g, row, err)
+				}
+				defer parquet.Release(p)
+				vals := make([]parquet.Value, p.NumValues())
+				n, _ := p.Values().ReadValues(vals)
+				want := src[g*6+int(row)].ID
+				if n == 0 || vals[0].Int64() != want {
+					return fmt.Sprintf("rg%d@%d:first=%v want %d MISMATCH", g, row, vals[:n], want)
+				}
+				return fmt.Sprintf("rg%d@%d:%d", g, row, want)
+			}
+			return fmt.Sprintf("reader-on-rg%d", i), func() string {
+				f, err := parquet.OpenFile(bytes.NewReader(data), int64(len(data)))
+				if err != nil {
+					return "open:" + err.Error()
+				}
+				res := make([]string, 2)
+				var wg vsync.WaitGroup
+				c15Spawn(&wg, func() {
+					var out bytes.Buffer
+					w := parquet.NewGenericWriter[KRow](&out, opts...)
+					// (second row group first: the copy is laid out differently from the source)
+					for _, g := range []int{1, 0} {
+						if _, err := w.WriteRowGroup(f.RowGroups()[g]); err != nil {
+							res[0] = "copy:" + err.Error() + " MISMATCH"
+							return
+						}
+					}
+					if err := w.Close(); err != nil {
+						res[0] = "close:" + err.Error() + " MISMATCH"
+						return
+					}
+					back, err := parquet.Read[KRow](bytes.NewReader(out.Bytes()), int64(out.Len()))
+					if err != nil || len(back) != len(src) {
+						res[0] = fmt.Sprintf("copy reads back %d rows, err=%v MISMATCH", len(back), err)
+						return
+					}
+					for k := range back {
+						if krowString(back[k]) != krowString(src[(k+6)%12]) {
+							res[0] = fmt.Sprintf("copy row %d = %s MISMATCH", k, krowString(back[k]))
+							return
+						}
+					}
+					res[0] = fmt.Sprintf("copy:%d bytes", out.Len())
+				})
+				c15Spawn(&wg, func() {
+					res[1] = seekRead(f, i, 4) + "," + seekRead(f, 1-i, 2) + "," + seekRead(f, i, 1)
+				})
+				wg.Wait()
+				after := seekRead(f, 0, 3) + "," + seekRead(f, 1, 5)
+				return strings.Join(res, " || ") + " || after:" + after
+			}
+		},
+	},
 }
 
 // asyncOutsideSched: the serial reference of S1 uses the synchronous pages
@@ -615,6 +689,8 @@ func c15Run(x *engine.X) {
 		x.Failf("livelock", shape, "%s[%s]: horizon exceeded after %d steps", s.name, desc, res.Steps)
 	case res.Leaked > 0:
 		x.Failf("goroutine-leak", shape, "%s[%s]: %d controlled goroutine(s) still blocked after the scenario finished: %v", s.name, desc, res.Leaked, res.Blocked)
+	case strings.Contains(got, "MISMATCH"):
+		x.Failf("wrong-result", shape, "%s[%s]: a goroutine observed a result that is wrong whatever the order: %s\ntrace tail: %v", s.name, desc, trunc2(got), tailStrings(res.Trace, 16))
 	case got != ref:
 		x.Failf("not-serializable", shape, "%s[%s]: result differs from the serial execution\n  schedule result: %s\n  serial result:   %s\ntrace tail: %v", s.name, desc, trunc2(got), trunc2(ref), tailStrings(res.Trace, 16))
 	}
@@ -641,7 +717,7 @@ func init() {
 		ID:    "C15",
 		Level: "model_checking",
 		MC:    true,
-		Rule: "9 scenarios on the real library under the cooperative scheduler - S1 asyncPages consumer sequences (all sequences of <=3 (4 thorough) of ReadPage / SeekToRow(0|5|11) / Close, plus use after Close) against the readPages goroutine; S2 async GenericReader with seeks; S3 two goroutines sharing one File opened with SkipPageIndex+SkipBloomFilters (lazy CAS-published offset index, column index, bloom filter, seek+read); S4 two ConcurrentRowGroupWriters filled concurrently, committed in order; S5 an independent writer next to a reader / another writer sharing the process-wide pools (pool hit/miss chosen by the explorer, poison on release); S6 one goroutine per ColumnWriter; S7 two independent writers of a struct type no writer has seen before, through the reflection path (process-wide struct field cache); S9 two zstd codec values with different levels, one per goroutine; S8 two goroutines on one codec value - x EVERY schedule within the deviation bound (1 quick, 2 thorough): a deviation is a preemption, the choice of a goroutine other than the lowest-id enabled one at a blocking point, or a pool miss; select choices are enumerated freely; " +
+		Rule: "10 scenarios on the real library under the cooperative scheduler - S1 asyncPages consumer sequences (all sequences of <=3 (4 thorough) of ReadPage / SeekToRow(0|5|11) / Close, plus use after Close) against the readPages goroutine; S2 async GenericReader with seeks; S3 two goroutines sharing one File opened with SkipPageIndex+SkipBloomFilters (lazy CAS-published offset index, column index, bloom filter, seek+read); S4 two ConcurrentRowGroupWriters filled concurrently, committed in order; S5 an independent writer next to a reader / another writer sharing the process-wide pools (pool hit/miss chosen by the explorer, poison on release); S6 one goroutine per ColumnWriter; S7 two independent writers of a struct type no writer has seen before, through the reflection path (process-wide struct field cache); S9 two zstd codec values with different levels, one per goroutine; S8 two goroutines on one codec value; S10 one goroutine copying the row groups of an open File verbatim into a new file while another seeks and reads in the same File, which is then read again - x EVERY schedule within the deviation bound (1 quick, 2 thorough): a deviation is a preemption, the choice of a goroutine other than the lowest-id enabled one at a blocking point, or a pool miss; select choices are enumerated freely; " +
 			"states = distinct scheduler state hashes, transitions = scheduling steps; non-trivial = every distinct schedule",
 		Assumptions: []string{
 			"scheduling points are the library's sync / sync.atomic / channel / go operations (sequential consistency at that granularity); plain-memory data races are outside the cooperative scheduler's view and are looked for by the free-running race-detector pass of the same scenario bodies (sampling; coverage.supplement)",
